@@ -2012,7 +2012,7 @@ Definition ex_stream : bytes :=
   B "#diffx: encoding=utf-8, version=1.0" ++ LF ++
   B "#.preamble: indent=4, length=21, line_endings=unix, mimetype=text/plain" ++ LF ++
   ex_preamble_body ++
-  B "#.meta: format=json, length=66" ++ LF ++
+  B "#.meta: format=json, length=67" ++ LF ++
   ex_json_bytes ++ LF.
 
 Lemma small_4 : small_int 4 /\ small_int 118.
